@@ -136,13 +136,33 @@ def declare_constraint(b, c, st=None):
     st.subject_to(expr, **kw)
 
 
+def sym_of(b, sym):
+    o = sym['op']
+    if o == 'T': return b.ocp.T
+    if o == 't0': return b.ocp.t0
+    return {'x': b.x, 'u': b.u, 'v': b.v, 'z': b.z}[o][sym['i'] - 1]
+
+
+def apply_guesses(b, decl):
+    """ocp.set_initial for every guess of decl['init'], in order."""
+    import numpy as _np
+    for g in decl.get('init', []):
+        s = sym_of(b, g['sym'])
+        if g['form'] == 'const': val = fl(g['vals'][0])
+        elif g['form'] == 'expr': val = mx(b, g['e'])
+        else:
+            vals = [fl(v) for v in g['vals']]
+            val = _np.array(vals) if g.get('np') else ca.DM(vals).T
+        b.ocp.set_initial(s, val)
+
+
 def horizon(h):
     if h['kind'] == 'num': return fl(h['v'])
     if h['kind'] == 'free': return FreeTime(fl(h['v']))
     return None  # parameter: set later
 
 
-def build(decl, solver='ipopt', with_method=True):
+def build(decl, solver='ipopt', with_method=True, after_init=False):
     """Declare the OCP described by decl on a fresh rockit.Ocp (stdout noise is swallowed)."""
     b = Built(); b.decl = decl
     buf = io.StringIO()
@@ -209,6 +229,8 @@ def build(decl, solver='ipopt', with_method=True):
             if i < i0: continue
             if p['val']:
                 ocp.set_value(b.p[i], pval(p, decl['method']['N']))
+        if not after_init:
+            apply_guesses(b, decl)
         if solver: ocp.solver(solver, {"print_time": False, "ipopt": {"print_level": 0}} if solver == 'ipopt' else {})
         if with_method: ocp.method(mk_method(decl['method']))
     return b
